@@ -77,8 +77,19 @@ func corrupt(t *rapid.T, c *wire.Crypto, raw []byte) (out []byte, class string, 
 	case kind <= 4: // any change to the stored CRC
 		old := binary.LittleEndian.Uint32(plain[wire.NonceSize:])
 		nv := old ^ uint32(rapid.Uint32Range(1, 0xffffffff).Draw(t, "crcXor"))
+		class = "stored_crc_changed"
+		// values a shortcut might treat specially: "no checksum" (0), all ones,
+		// the complement, the byte-swapped value
+		if sp := rapid.IntRange(0, 7).Draw(t, "crcSpecial"); sp < 4 {
+			if v := [4]uint32{0, 0xffffffff, ^old, old<<24 | old>>24 | (old&0xff00)<<8 | (old>>8)&0xff00}[sp]; v != old {
+				nv, class = v, "stored_crc_special_value"
+				if len(covered) > 0 && rapid.Bool().Draw(t, "andPayload") {
+					covered[rapid.IntRange(0, len(covered)-1).Draw(t, "payOff")] ^= byte(rapid.IntRange(1, 255).Draw(t, "payMask"))
+				}
+			}
+		}
 		binary.LittleEndian.PutUint32(plain[wire.NonceSize:], nv)
-		return c.SealRaw(plain), "stored_crc_changed", false
+		return c.SealRaw(plain), class, false
 	default: // ciphertext-level corruption, kept only if the independent CRC confirms a mismatch
 		out = append([]byte(nil), raw...)
 		if kind == 5 {
